@@ -480,6 +480,14 @@ class Gen:
             for t in throws:
                 pool.append(("throws", t + " when " + self.word()))
             pool.append(("return", "the " + self.word()))
+        if r.random() < 0.35:
+            # the same tag twice with different texts (two authors, a second @see, …)
+            for name in r.sample(["author", "version", "since", "see", "return", "throws"], r.randint(1, 3)):
+                if name in ("return", "throws") and not for_method:
+                    continue
+                pool.append((name, {"author": "Second " + self.word(), "version": "%d.%d-rc" % (r.randint(10, 19), r.randint(0, 9)),
+                                    "since": "%d" % r.randint(30, 40), "see": "Also" + self.word().capitalize(),
+                                    "return": "or the " + self.word(), "throws": "Other when " + self.word()}[name]))
         r.shuffle(pool)
         for tg in pool[: r.randint(0, len(pool))]:
             tags.append(tg)
@@ -704,3 +712,49 @@ public class Sink extends Thread implements Runnable, Cloneable {
     static void helperCall(Object... x) { }
 }
 """ % (ops, cmps)
+
+
+def odd_places():
+    """Supported constructs where declarations-only code is usually expected: annotation arguments, parameter
+    lists, imports, package clause, enum and interface bodies, lambdas, anonymous classes, initialisers, array
+    initialisers, ternaries, switch arms, try/catch/finally, synchronized blocks, generic bounds."""
+    return """/* header */ package /* in package clause */ odd.places;
+import /* in import */ java.util.List;
+import java.util.function.IntSupplier;
+
+@interface Size { int max() default 1 + 1; int min() default 0; }
+
+@SuppressWarnings({"a" + "b", /* in annotation */ "c"})
+public class Odd<T extends Comparable<T>> {
+    static final int BASE = 10;
+    @Size(max = BASE * 4, min = BASE - 9) int sized = BASE / 2;
+    static { int boot = BASE % 3; prepare(boot); }
+    { Object self = new Object(); }
+    int[] table = { 1 << 2, BASE >> 1, makeOne(BASE >>> 2) };
+
+    Odd(@Size(max = 2 * 2) int first, /* between parameters */ int second) { this.sized = first ^ second; }
+
+    void resize(/* unused */ int hint, @Size(max = sizeOf(new Object())) int w) { }
+
+    int choose(int a) {
+        IntSupplier s = () -> a + BASE;
+        Runnable r = new Runnable() { public void run() { int inner = a | 1; log(inner); } };
+        int t = a > 1 ? a & 3 : twice(a);
+        switch (a) { case 1: t = t + 1; break; default: t = t - 1; }
+        try (java.io.StringReader rd = new java.io.StringReader("x" + a)) { t = rd.read(); }
+        catch (java.io.IOException | RuntimeException e) { t = fail(e); }
+        finally { /* in finally */ t = t * 1; }
+        synchronized (this) { if (t != 0) { return t; } }
+        for (int i = 0, j = a <= 1 ? 1 : 2; i < j; i++) { continue; }
+        return s.getAsInt();
+    }
+    static int makeOne(int x) { return x; }
+    static int twice(int x) { return x + x; }
+    static int sizeOf(Object o) { return 1; }
+    static int fail(Exception e) { return -1; }
+    static void prepare(int x) { }
+    static void log(int x) { }
+    enum Mode { FAST(1 + 0), SLOW(new Object() == null ? 2 : 3); final int v; Mode(int v) { this.v = v; } int get() { return v * 1; } }
+    interface Shape { default int area() { int k = 2 * 3; return k; } /* in interface */ }
+}
+"""
